@@ -422,6 +422,12 @@ def propagate(ctx, prog):
 
     def read_from_stub(ex, st, fn, argv):
         # the decoder hands on a frame (handler call) and then returns Ok(n) or an error
+        # the decoder reads from the transport itself: behind a reader that can report Ok(0) on its own (io::Read::take and the like) an
+        # exhausted budget is indistinguishable from the end of the stream
+        sv_ = argv[1]
+        while isinstance(sv_, Ref):
+            sv_ = ex.read_path(st, sv_.cell, sv_.path)
+        st.roots['direct_stream'] = isinstance(sv_, Unit)
         s2, argv2 = copy.deepcopy((st, argv))     # the closure argument belongs to its own state copy
         s2.roots['dec'] = 'err'
         st.roots['dec'] = 'ok'
@@ -440,6 +446,8 @@ def propagate(ctx, prog):
     st, w = build_steady(prog, [])
     for (s, rv) in ex.run(st, f, [Ref(w.inner), Ref(Cell(Unit(), 'stream')), Ref(Cell(Unit(), 'framebuf')), FnItem('verif_handler')], bind={'S': 'VerifStream', 'F': 'VerifHandler'}):
         handled = ('handled',) in s.trace     # the frame decoded before the pass ended was acted on, whatever ended the pass
+        if not s.roots.get('direct_stream', True):
+            handled = False     # reported through the same obligation: what the decoder takes for the end of the stream may not be one
         if s.roots['dec'] == 'ok':
             c_ = z3.BoolVal(err_name(prog, rv) == 'Ok' and handled)
         elif not handled:
@@ -472,6 +480,7 @@ impl mio::Evented for VS {
 }
 impl crate::IoStream for VS {}
 fn enc(f: &AMQPFrame) -> Vec<u8> { let mut b = vec![0u8; 4096]; let n = { let (_, n) = gen_frame((&mut b[..], 0), f).unwrap(); n }; b.truncate(n); b }
+fn enc_big(f: &AMQPFrame) -> Vec<u8> { let mut b = vec![0u8; 256 * 1024]; let n = { let (_, n) = gen_frame((&mut b[..], 0), f).unwrap(); n }; b.truncate(n); b }
 #[test]
 fn verif_replay_c06_rfs() {
     let mut bad: Vec<String> = Vec::new();
@@ -489,6 +498,16 @@ fn verif_replay_c06_rfs() {
         let want_frames = if tail == 0 { 3 } else { 2 };   // every complete frame that arrived before the end is acted on
         if (got != want || frames != want_frames) && bad.len() < 3 { bad.push(format!("cut={}:tail={}:frames={}:want_frames={}:got={}:want={}", cut, tail, frames, want_frames, got, want)); }
     } } }
+    // a backlog of 1.5 MiB is readable without a would-block in between: every frame is acted on and the pass ends Ok at the would-block
+    {
+        let big: Vec<u8> = (0..12).flat_map(|i| enc_big(&AMQPFrame::Body(1, vec![i as u8; 128 * 1024 - 8]))).collect();
+        let mut s = VS { chunks: vec![big], i: 0, terminal: 0 };
+        let mut inner = Inner::new(HeartbeatTimers::default(), 16);
+        let mut fb = crate::frame_buffer::FrameBuffer::new();
+        let mut frames = 0;
+        let r = inner.read_from_stream(&mut s, &mut fb, |_, _| { frames += 1; Ok(()) });
+        if r.is_err() || frames != 12 { bad.push(format!("backlog-1.5MiB:frames={}:result={}", frames, match &r { Ok(()) => "Ok".to_string(), Err(e) => format!("{:?}", e).replace(' ', "") })); }
+    }
     if bad.is_empty() { println!("VERIF-REPLAY-OK"); } else { println!("VERIF-REPLAY-VIOLATION decoder-error-swallowed {}", bad.join(";")); }
 }
 '''
